@@ -1,4 +1,5 @@
 import LayerModel.Lemmas.Rewards
+import LayerModel.Gen.Formulas
 
 /-!
 # C09 — each reward is split exactly, non-negatively and in proportion to backing stake
@@ -8,6 +9,11 @@ over the exact `LegacyDec` model (`Layer.Dec`).  All amounts are raw 10^-18 inte
 -/
 namespace Layer.Rewards
 open Layer Layer.Agg
+
+/-- **C09 (the share formula is the code's).** `amount := power.Quo(tPower).Mul(reward.ToLegacyDec())`
+as regenerated from x/oracle/keeper/rewards.go on every run is the model's `calculateRewardAmount`. -/
+theorem C09_formula (rp cnt tp : Nat) (reward : Int) :
+    calculateRewardAmount rp cnt tp reward = Layer.Gen.rewardAmount (i64 rp) (i64 cnt) (i64 tp) reward := rfl
 
 /-- **C09 (allocation is exact).** Whenever a non-zero reward is paid for aggregates that list at
 least one reporter, the amounts handed to `AllocateTip` sum to the reward exactly — for every
